@@ -175,6 +175,18 @@ int main(void) {
             }
             l->free(l);
             free(s); free(del); free(a.p); free(d.p);
+        } else if ((nw == 5 && !strcmp(op, "cpyov")) || (nw == 6 && !strcmp(op, "ncpyov"))) {
+            /* destination and source inside ONE exactly sized block (documented: overlap allowed).
+             * The generator guarantees: the source string ends inside the block (cpyov) resp.
+             * min(nbytes, size-1) source bytes are inside it (ncpyov), and dst + size is inside. */
+            bytes_t a; if (!unhex(w[1], &a)) { printf("bad-hex\n"); continue; }
+            size_t doff = strtoul(w[2], NULL, 10), soff = strtoul(w[3], NULL, 10), size = strtoul(w[4], NULL, 10);
+            char *buf = malloc(a.n ? a.n : 1);
+            memcpy(buf, a.p, a.n);
+            char *r = nw == 5 ? qstrcpy(buf + doff, size, buf + soff)
+                              : qstrncpy(buf + doff, size, buf + soff, strtoul(w[5], NULL, 10));
+            printf("ok "); put_block(buf, a.n); printf(" ret %ld", (long) (r - buf));
+            free(buf); free(a.p);
         } else if (nw == 2 && !strcmp(op, "comma")) {
             long v = strtol(w[1], NULL, 10);
             rec_on();
